@@ -637,6 +637,13 @@ def check_jacobi_gram(case, ctx):
     mu0 = jacobi_h(0, a, b)
     if not (np.all(np.isfinite(xg)) and np.all(np.isfinite(wg)) and abs(float(np.sum(wg)) - mu0) <= 1e-11 * mu0):
         ctx.exclude('scipy roots_jacobi does not reproduce the zeroth moment to 1e-11')
+    # the rule must be good for more than the zeroth moment: scipy's own Jacobi polynomials at scipy's nodes have to be orthonormal to 1e-9
+    # (100x below the tolerance).  For nearly-symmetric exponents next to -1/2 and an odd node count roots_jacobi is only good to ~1e-7
+    # (found by a background sweep: a = b = -0.5000005, 51 nodes, scipy's and prysm's polynomials off by the same 3.5e-7)
+    Vs = np.array([sps.eval_jacobi(n, a, b, xg) for n in range(N + 1)])
+    hs = np.array([jacobi_h(n, a, b) for n in range(N + 1)])
+    if float(np.abs(((Vs * wg) @ Vs.T) / np.sqrt(np.outer(hs, hs)) - np.eye(N + 1)).max()) > 1e-9:
+        ctx.exclude('scipy roots_jacobi rule is not exact for scipy\'s own polynomials to 1e-9')
     lay = case.get('layout', 'C')
     ctx.label('nodes:' + lay)
     xarg = U.relayout(xg, 'strided') if lay == 'strided' else xg[:, None] if lay == 'column' else xg       # the same nodes as a strided view / an (N+1, 1) column
